@@ -23,6 +23,9 @@ pub enum TOp {
     DeleteLive { n: u16 },
     /// delete `n` keys that were never inserted (they only advance the log)
     DeleteFresh { n: u16 },
+    /// insert `n` new keys and delete them at once, while their writes are still queued (not yet indexed): the
+    /// deletes race the inserts in the flusher's queue
+    InsertThenDelete { n: u16 },
     /// insert again the `n` most recently deleted keys
     Reinsert { n: u16 },
     Wait,
@@ -55,6 +58,7 @@ fn top() -> impl Strategy<Value = TOp> {
         4 => count_strategy().prop_map(|n| TOp::DeleteLive { n }),
         4 => count_strategy().prop_map(|n| TOp::DeleteFresh { n }),
         2 => (1u16..=10).prop_map(|n| TOp::Reinsert { n }),
+        3 => (1u16..=12).prop_map(|n| TOp::InsertThenDelete { n }),
         2 => Just(TOp::Wait),
         4 => Just(TOp::Reopen),
         2 => Just(TOp::CrashAfterWait),
@@ -126,6 +130,7 @@ pub fn exec_c10(case: &TCase) -> CaseReport {
     let mut classes: Vec<&'static str> = vec![];
     let mut second_page = false;
     let mut reinserted_any = false;
+    let mut delete_raced_insert = false;
 
     let verify = |sim: &mut HybSim, model: &BTreeMap<u64, KState>, when: &str, failure: &mut Option<Failure>| {
         for (k, st) in model {
@@ -199,6 +204,34 @@ pub fn exec_c10(case: &TCase) -> CaseReport {
                 since_reopen += n;
                 if reopens > 0 && n > 0 {
                     deletes_after_reopen = true;
+                }
+                sim.raw_settle();
+            }
+            TOp::InsertThenDelete { n } => {
+                let room = (device_pages / 3).saturating_sub(live_order.len() + deleted_order.len());
+                let n = (*n as usize).min(room).min(device_pages.saturating_sub(total_tombstones));
+                let mut keys = vec![];
+                for _ in 0..n {
+                    let k = next_key;
+                    next_key += 1;
+                    let _ = sim.raw_insert(k, 1000);
+                    keys.push(k);
+                }
+                // hand them to the disk tier (write-on-eviction: by evicting), then delete without letting the
+                // flushers run in between
+                sim.raw_evict_all();
+                for k in keys {
+                    sim.raw_remove(k);
+                    model.insert(k, KState::Deleted);
+                    deleted_order.push(k);
+                }
+                total_tombstones += n;
+                since_reopen += n;
+                if reopens > 0 && n > 0 {
+                    deletes_after_reopen = true;
+                }
+                if n > 0 {
+                    delete_raced_insert = true;
                 }
                 sim.raw_settle();
             }
@@ -280,6 +313,9 @@ pub fn exec_c10(case: &TCase) -> CaseReport {
     if reinserted_any {
         classes.push("reinsert-after-delete");
     }
+    if delete_raced_insert {
+        classes.push("delete-while-insert-still-queued");
+    }
     if case.ops.iter().any(|o| matches!(o, TOp::CrashAfterWait)) {
         classes.push("crash-after-acknowledged-wait");
     }
@@ -302,7 +338,7 @@ pub fn check_c10(tier: Tier, seed: u64) -> i32 {
     let mut check = Check::new("C10", "exploration", tier, seed);
     check.rule = "macro-op histories on HybridCache (simulated device, tombstone log on, both policies, 1-2 flushers): insert n new keys / delete the n oldest live keys / delete n never-inserted keys (they only advance the log) with n from {1..6, 255, 256, 257, 300, 511, 512, 513, 100..700} / re-insert recently deleted keys / wait / graceful reopen / crash right after an acknowledged wait; total tombstones bounded by the log capacity (one per device page), device sized so that nothing is reclaimed (verified from the write log, else the case is discarded). Oracle after every reopen and a final one: every deleted-and-not-reinserted key misses, every live (incl. re-inserted) key hits with its exact version. Non-trivial = more than 256 tombstones logged before some reopen (second log page reached) and at least one delete after a reopen.".into();
     check.assumptions = vec!["identity hasher (no collisions), so a hit on a deleted key cannot be a false positive".into()];
-    let cases = tier.pick(12_000, 400_000);
+    let cases = tier.pick(60_000, 1_500_000);
     check.run_random("random", cases, tcase, exec_c10);
     check.finish()
 }
